@@ -62,7 +62,7 @@ class C19(Profile):
               'cross_category_name', 'extension_name_form', 'failed_registration_checked', 'parse_registered_custom',
               'parse_unregistered_strict_refused', 'parse_unregistered_custom_mode_dict', 'version_scoped_negative',
               'custom_roundtrip', 'custom_new_version', 'custom_store_roundtrip', 'custom_marking_used', 'custom_extension_used',
-              'either_name', 'extension_name_taken', 'toplevel_extension_used']
+              'either_name', 'extension_name_taken', 'toplevel_extension_used', 'two_toplevel_extensions_on_one_object']
     rule = ('plans: 20-60 ops: registrations through the four decorators of both spec versions with names from a pool of fresh, already '
             'taken (built-in, earlier in the run, other category) and rule-breaking names and with legal / rule-breaking property lists, the '
             'extension_name form; interleaved with parse (strict/custom mode, version named or not), class_for_type, construction, '
@@ -133,6 +133,13 @@ class C19(Profile):
             self.compare_registries(op)
 
     def compare_registries(self, op):
+        shape = self.world.reg.shape()
+        prev = getattr(self, 'shape_prev', None)
+        if prev is not None:
+            mutated = self.world.reg.shape_diff(prev, shape)
+            if mutated:
+                raise Violation('registries-equal-model', 'C19.registry/class-mutated', dict(classes=mutated[:5], after=op['op']))
+        self.shape_prev = shape
         cur = self.world.reg.take()
         for ver in sorted(set(cur) | set(self.model)):
             for cat in CATS:
@@ -402,8 +409,32 @@ class C19(Profile):
             self.model['2.1']['extensions'][ext_id] = o.value
             world.changed()
         n = op['n']
+        ext_b = 'extension-definition--' + C.mkuuid(8, 'c19tl')
+        if ext_b not in self.model['2.1']['extensions']:
+            def regb():
+                @s.v21.CustomExtension(ext_b, [('score', IntegerProperty(required=True))])
+                class TopLevelB(object):
+                    extension_type = 'toplevel-property-extension'
+                return TopLevelB
+            ob = call(regb)
+            if not ob.ok:
+                raise Violation('registration-accepted', 'C19.refused-valid/toplevel-extension/%s' % type(ob.exc).__name__, dict(exc=repr(ob.exc)[:300]))
+            self.model['2.1']['extensions'][ext_b] = ob.value
         kw = dict(id=C.mkid('identity', n, 'c19'), created='2017-01-01T00:00:00.000Z', modified='2017-01-01T00:00:00.000Z', name='tl',
                   rank=op['a'] % 100, extensions={ext_id: {'extension_type': 'toplevel-property-extension'}})
+        if (op['a'] // 6) % 2:
+            # both registered toplevel-property extensions on one object, in either order; once valid, once with a wrong-kind value
+            both = [(ext_id, {'extension_type': 'toplevel-property-extension'}), (ext_b, {'extension_type': 'toplevel-property-extension'})]
+            if (op['a'] // 12) % 2:
+                both.reverse()
+            kw2 = dict(kw, extensions=dict(both), score=7)
+            ok2 = call(lambda: s.v21.Identity(**kw2))
+            if not ok2.ok:
+                raise Violation('custom-instances', 'C19.use/two-toplevel-construct-refused/%s' % type(ok2.exc).__name__, dict(exc=repr(ok2.exc)[:300]))
+            bad2 = call(lambda: s.v21.Identity(**dict(kw2, score={'not': 'a number'})))
+            if bad2.ok:
+                raise Violation('custom-instances', 'C19.use/toplevel-validation-skipped', dict(score='object'))
+            world.probe('two_toplevel_extensions_on_one_object')
         o = call(lambda: s.v21.Identity(**kw))
         if not o.ok:
             raise Violation('custom-instances', 'C19.use/toplevel-construct-refused/%s' % type(o.exc).__name__, dict(exc=repr(o.exc)[:300]))
